@@ -10,6 +10,7 @@ PLAN = {
  "C09-A": ["C09"], "C09-B": ["C09"], "C10-A": ["C10"], "C10-B": ["C10"],
  "C13-A": ["C13"], "C13-B": ["C13", "C18"], "C14-A": ["C14"], "C14-B": ["C14"],
  "C18-A": ["C18"], "C18-B": ["C18"], "C19-A": ["C19"], "C19-B": ["C19"],
+ "C09-D": ["C09", "C02"], "C18-E": ["C18", "C05"],
 }
 
 def one(sid, pid, tier):
